@@ -183,4 +183,22 @@ example :
       (Spec.editAt [("definitions", some 0), ("selection_set", none), ("selections", some 0)] .delete witnessDup) = false ∧
     (idsNode witnessDup).Nodup := by decide +kernel
 
+/-! ### replacement by a node of another class (W7) -/
+
+/-- the wrapper dispatches on the class of the node returned by `enter` (holds with proposed fix C18-W7; without it
+    `_visit_field` goes on with a `FragmentSpread` and raises `AttributeError`) -/
+theorem table_cross_kind : table.crossKind = true := by decide +kernel
+
+/-- with that, a replacement of another class handled by `visit` is traversed by the method of ITS class -/
+theorem cross_kind_body (m m' : String) (n r : Node) (hk : r.kind ≠ n.kind) (hv : table.visit.lookup r.kind = some m') :
+    bodyMethod table m n r = .ok m' := by
+  simp [bodyMethod, table_cross_kind, hk, hv]
+
+/-- `{ a(x: 1) @d b { c } }`: the field `b` replaced by a fragment spread — the visit completes and the result is
+    `Spec.editAt … (.replace r)` (`replace_at` states the same for every reached position and every fresh `r`) -/
+example :
+    let r : Node := .mk "FragmentSpread" 100 [("name", .one none), ("directives", .many [])]
+    sameTree (visit table (actAt 10 fun _ => .replace r) 64 witnessSmall ()) (Spec.editAt pathB (.replace r) witnessSmall) = true := by
+  decide +kernel
+
 end PyGql.Props.C18
